@@ -18,6 +18,9 @@
 #include <ksi/net_ha.h>
 #include <ksi/publicationsfile.h>
 #include <ksi/verification_rule.h>
+#include <ksi/tlv_template.h>
+#include <ksi/signature_builder.h>
+KSI_IMPORT_TLV_TEMPLATE(KSI_AggregationHashChain);
 #include <ksi/policy.h>
 #include <ksi/verification.h>
 #include <ksi/signature_builder.h>
@@ -479,6 +482,21 @@ int main(void) {
 			if (rc == KSI_OK) rc = KSI_SignatureBuilder_close(bld, strtoull(tok[3], NULL, 10), &out);
 			KSI_SignatureBuilder_free(bld); KSI_Signature_free(slots[d]); slots[d] = out;
 			printf("R olevel rc=0x%x\n", rc);
+		} else if (!strcmp(tok[0], "OPREPEND")) {
+			/* OPREPEND <dst> <src> <aggregationChainTlvHex>: a local aggregation chain (whose root is the source signature's document hash) is prepended:
+			 * KSI_SignatureBuilder_openFromSignature + KSI_SignatureBuilder_createSignatureWithAggregationChain; the source must stay as it is */
+			int d = atoi(tok[1]), k = atoi(tok[2]), rc; size_t l; unsigned char *b = hx_dec(tok[3], &l); KSI_TLV *tlv = NULL; KSI_AggregationHashChain *ch = NULL;
+			KSI_SignatureBuilder *bld = NULL; KSI_Signature *out = NULL;
+			rc = KSI_AggregationHashChain_new(ctx, &ch);
+			if (rc == KSI_OK) rc = KSI_TLV_parseBlob(ctx, b, l, &tlv);
+			if (rc == KSI_OK) rc = KSI_TlvTemplate_extract(ctx, ch, tlv, KSI_TLV_TEMPLATE(KSI_AggregationHashChain));
+			KSI_TLV_free(tlv); free(b);
+			/* like a chain from the tree builder, the local chain carries no aggregation time yet (the builder sets the signature's; it does not release a previous value) */
+			if (rc == KSI_OK) { KSI_Integer *t = NULL; KSI_AggregationHashChain_getAggregationTime(ch, &t); KSI_AggregationHashChain_setAggregationTime(ch, NULL); KSI_Integer_free(t); }
+			if (rc == KSI_OK) rc = KSI_SignatureBuilder_openFromSignature(slots[k], &bld);
+			if (rc == KSI_OK) rc = KSI_SignatureBuilder_createSignatureWithAggregationChain(bld, ch, &out);
+			KSI_SignatureBuilder_free(bld); KSI_AggregationHashChain_free(ch); KSI_Signature_free(slots[d]); slots[d] = out;
+			printf("R oprepend rc=0x%x\n", rc);
 		} else if (!strcmp(tok[0], "NOISE")) {
 			if (!strcmp(tok[1], "hash")) { size_t l; unsigned char *b = hx_dec(tok[2], &l); KSI_DataHash *h = NULL, *h2 = NULL; KSI_DataHash_create(ctx, b, l, KSI_HASHALG_SHA2_256, &h);
 				KSI_DataHash_create(ctx, b, l / 2, KSI_HASHALG_SHA2_512, &h2); KSI_DataHash_free(h); KSI_DataHash_free(h2); free(b); }
